@@ -53,7 +53,7 @@ META = dict(
               "implementation's G values + exact group-ring tie of omega_qij + numpy oracles",
     rule='networks: 12 interstitial networks (FCC/BCC/HCP/SC/zincblende/triclinic/2-D), 11 vacancy crystals, symmetry-closed '
          'disconnected sub-networks, random low-symmetry 2-D/3-D crystals, re-descriptions of the zoo crystals by unimodular basis changes '
-         '(det +1 and -1, noreduce=True); every data set is re-evaluated with all rates scaled by 1e-9 ... 1e9 (prefactors or barrier shift); data: perfect-square prefactors and energies in units '
+         '(det +1 and -1, noreduce=True) and rigidly rotated copies (generic Euler angles); every data set is re-evaluated with all rates scaled by 1e-9 ... 1e9 (prefactors or barrier shift); data: perfect-square prefactors and energies in units '
          'of ln(3/2) (exact rational symmetrised rates) and generic floats; points: all-zero separation, random separations '
          'within 2 cells, separations at a quarter of the k-mesh period; a case = (network, data, point, oracle); non-trivial = '
          'several sites or non-uniform rates or non-zero separation',
